@@ -269,6 +269,80 @@ def cyclic_docs():
             ("inner self-loop", e), ("self-loop fan-out 2", f)]
 
 
+def random_heap(rng, n):
+    """n containers (dicts and lists) whose container children are chosen among all n (so cycles and sharing
+    are common), plus a few scalar children; returns the objects"""
+    objs = [({} if rng.random() < 0.5 else []) for _ in range(n)]
+    for o in objs:
+        for j in range(rng.randint(0, 3)):
+            child = rng.choice(objs) if rng.random() < 0.75 else rng.choice([0, "s", None, True])
+            if isinstance(o, dict):
+                o[rng.choice("abcd") + str(j)] = child
+            else:
+                o.append(child)
+    return objs
+
+
+def graph_stage(rng, tier, res):
+    import jsonpath_rfc9535 as jp
+    from jsonpath_rfc9535.node import JSONPathNode
+
+    lines, expect = [], []
+    for _ in range(60 if tier != "thorough" else 600):
+        objs = random_heap(rng, rng.randint(1, 6))
+        ids = {id(o): i for i, o in enumerate(objs)}
+        ents = []
+        for i, o in enumerate(objs):
+            kids = []
+            for k, c in (o.items() if isinstance(o, dict) else enumerate(o)):
+                if isinstance(c, (dict, list)):
+                    kids.append(f"({k if isinstance(k, int) else wire.enc_str(k)} {ids[id(c)]})")
+            ents.append(f"({i} {' '.join(kids)})" if kids else f"({i})")
+        heap = "(heap " + " ".join(ents) + ")"
+        lim = rng.choice([1, 2, 3, 4, 6])
+        cls = type("E", (jp.JSONPathEnvironment,), {"max_recursion_depth": lim})
+        env = cls()
+        seg = env.compile("$..*").segments[0]
+        root = objs[0]
+        got = []
+        tail = "end"
+        try:
+            for nd in seg._visit(JSONPathNode(value=root, location=(), root=root)):
+                got.append(wire.enc_loc(nd.location) + "@" + str(ids[id(nd.value)]))
+                if len(got) > 20000:
+                    tail = "too-many"
+                    break
+        except jp.JSONPathRecursionError:
+            tail = "err JSONPathRecursionError"
+        except RecursionError:
+            tail = "err PY:RecursionError"
+        except AttributeError as err:
+            res.notes.append(f"_visit entry point not reachable: {err!r}")
+            return
+        res.evaluations += 1
+        lines.append(f"g.visit\t{lim}\t0\t{heap}")
+        expect.append(("visited\t" + " ".join(got) + "\t" + tail, lim, heap))
+        # the public entry point agrees on the outcome
+        try:
+            env.find("$..*", root)
+            pub = "end"
+        except jp.JSONPathRecursionError:
+            pub = "err JSONPathRecursionError"
+        except RecursionError:
+            pub = "err PY:RecursionError"
+        if pub != tail:
+            res.violations.append({"property": "C18", "query": "$..*", "document": heap, "observed": pub, "expected": tail,
+                                   "what": f"find() and the traversal disagree on the outcome, limit {lim}"})
+        if tail not in ("end", "err JSONPathRecursionError"):
+            res.violations.append({"property": "C18", "query": "$..*", "document": heap, "observed": tail,
+                                   "expected": "completion or JSONPathRecursionError", "what": f"containers referring to each other, limit {lim}"})
+    out = model.run_batch_parallel(lines)
+    for (want, lim, heap), o in zip(expect, out):
+        if o != want:
+            res.mismatches.append({"op": "g.visit", "limit": lim, "heap": heap, "model": o[:300], "real": want[:300]})
+    res.count("graph-heaps", len(lines))
+
+
 def explore_c18_nd(rng, tier, res, deep=False):
     import jsonpath_rfc9535 as jp
 
@@ -326,6 +400,9 @@ def explore_c18_nd(rng, tier, res, deep=False):
                     res.violations.append({"property": "C18", "query": q, "document": name, "observed": f"{outc} after {dt:.2f}s",
                                            "expected": "JSONPathRecursionError in bounded time",
                                            "what": f"cyclic data, deterministic mode, limit {lim}"})
+    # (2b) random heaps of containers that refer to each other (cycles, shared substructure, fan-out 0..3) against
+    # the graph model Impl.G.visitTop: same sequence of visited nodes (locations), same outcome, for limits 1..6
+    graph_stage(rng, tier, res)
     # (3) cyclic data, nondeterministic mode
     nd_cls = type("N", (jp.JSONPathEnvironment,), {"nondeterministic": True})
     for name, doc in cyclic_docs()[:5]:
